@@ -204,6 +204,12 @@ def run(ck, F, tier):
     nh = rule_denylist(ck, F)
     rule_types(ck, F)
     ck.floor('HashMap call sites screened', nh, 5)
+    # "a pure function of ... the sequence of bytes supplied": the only input channel is std::io::Read, whose `read` may split the same
+    # byte sequence differently from call to call (sockets, pipes). The result is independent of that splitting only if the source is
+    # consumed through read_exact into a buffer whose bytes are all kept: C05's rule T6, re-run here.
+    from ..report import Scoped
+    from . import c05
+    c05.t6_retry_granularity(Scoped(ck, 'C05.'), F)
     # positive control on the fixture crate
     from ..fixture import run_fixture
     run_fixture(ck, 'C17', {
